@@ -20,8 +20,8 @@ CLAIMED = {
          "compilation is observed, not proved; the keyword lemma is re-proved against the regenerated tables on every run", "DESIGN.md 7 C07"),
  "C08": ("Coq: C08_views for every emitted module, type and input: every non-empty opaque leaf is a view into the input at the offset where its bytes lie; K3 compares real pointer offsets",
          "theorem holds for all inputs and all specifications; pointer identity is observed by the harness", "DESIGN.md 7 C08"),
- "C09": ("Coq: C09_requests_bounded for every emitted module, type, input and outcome: each allocator request is at most the bytes remaining; C09_refuted_linear_F15 (self-nested counted arrays: the SUM is quadratic, known finding F15); K3a: real allocator bytes = model ledger; hostile, wrapping and nested counts under a counting allocator",
-         "per-request bound is a theorem for all inputs; the linear total is observed (counting allocator) and refuted on the F15 class", "DESIGN.md 7 C09"),
+ "C09": ("Coq: C09_requests_bounded for every emitted module, type, input and outcome: each allocator request is at most the bytes remaining; C09_total_linear(_decidable) -- under lin_b (F1-free, positive elements, no counted array nested in its own element type) the SUM of all requests is <= (array nesting depth + 1) * bytes in the buffer, for every input and outcome; C09_refuted_linear_F15 (self-nested counted arrays: the SUM is quadratic, known finding F15); K3a: real allocator bytes = model ledger; hostile, wrapping and nested counts under a counting allocator",
+         "per-request bound and linear total are theorems for all inputs (the total under the decidable hypothesis lin_b, evaluated on the corpus); refuted on the F15 class; bytes per element are outside the model (K3a)", "DESIGN.md 7 C09"),
  "C10": ("Coq theorems over Runtime.v (reader contracts for all n, r, max; all 2^32 boolean words) + K3 exhaustive grid correspondence with header.rs + independent contract oracle",
          "theorems quantify over every buffer, length and maximum; the model of header.rs is tied to the code on the exhaustive (n, r, max) grid", "DESIGN.md 7 C10"),
  "C11": ("Coq: generic index depends only on the set of items (order independence via C13); source scan for nondeterminism; real generator in fresh processes / shared Generator; layout and permutation variants compared item by item",
